@@ -13,9 +13,15 @@ func compileClass(vm *r.VM, classID *r.IDName, classNode *syntax.ClassDeclareStm
 
 	// init prop list and its default value
 	for _, propPair := range classNode.PropertyList {
-		propID := propPair.PropertyID.GetLiteral()
-		// a fault in the initial value arises on the line of that property
+		// a fault in the name or the initial value arises on the line of that property
 		vm.SetCurrentLine(propPair.GetCurrentLine())
+		// (like any declared name: a number, or what starts like a number and is none, is
+		// no name of a property)
+		propName, err := MatchIDName(propPair.PropertyID)
+		if err != nil {
+			return nil, err
+		}
+		propID := propName.GetLiteral()
 		element, err := evalExpression(vm, propPair.InitValue)
 		if err != nil {
 			return nil, err
@@ -26,14 +32,22 @@ func compileClass(vm *r.VM, classID *r.IDName, classNode *syntax.ClassDeclareStm
 
 	// add getters
 	for _, gNode := range classNode.GetterList {
-		getterTag := gNode.Name.GetLiteral()
-		ref.DefineCompProperty(getterTag, compileFunction(vm, gNode))
+		vm.SetCurrentLine(gNode.GetCurrentLine())
+		getterName, err := MatchIDName(gNode.Name)
+		if err != nil {
+			return nil, err
+		}
+		ref.DefineCompProperty(getterName.GetLiteral(), compileFunction(vm, gNode))
 	}
 
 	// add methods
 	for _, mNode := range classNode.MethodList {
-		mTag := mNode.Name.GetLiteral()
-		ref.DefineMethod(mTag, compileFunction(vm, mNode))
+		vm.SetCurrentLine(mNode.GetCurrentLine())
+		methodName, err := MatchIDName(mNode.Name)
+		if err != nil {
+			return nil, err
+		}
+		ref.DefineMethod(methodName.GetLiteral(), compileFunction(vm, mNode))
 	}
 
 	return ref, nil
